@@ -57,9 +57,25 @@ def gen_case(rng, i, tier):
         call["boundary"] = b
     if f is not None:
         call["fill_value"] = f
+    dtype = rng.choice(["float64"] * 6 + ["int64", "int64", "uint64"])
+    if dtype != "float64":
+        # integer-typed data (counts, indices, packed ids) with integer fills only, among them integers that float64
+        # cannot hold: a fill value must arrive in the new cells as given, not after a detour through a float
+        big = [2**53 + 1, 2**62 + 3] + ([-(2**53) - 1] if dtype == "int64" else [2**63 + 5])
+
+        def intfill(v):
+            if isinstance(v, dict):
+                return {k: intfill(x) for k, x in v.items()}
+            if v is None or rng.random() < 0.4 and float(v).is_integer() and (v >= 0 or dtype == "int64"):
+                return v
+            return rng.choice(big + [5])
+
+        ctor["fill_value"] = intfill(ctor.get("fill_value"))
+        if "fill_value" in call:
+            call["fill_value"] = intfill(call["fill_value"])
     return {
         "layout": layout, "ctor": ctor, "pos": pos, "dims": dims, "extra": extra,
-        "data": {"kind": "unique" if rng.random() < 0.5 else "quarter", "seed": rng.getrandbits(31)},
+        "data": {"kind": "unique" if rng.random() < 0.5 else "quarter", "seed": rng.getrandbits(31), "dtype2": dtype},
         "call": call, "name": "v",
     }
 
@@ -120,6 +136,9 @@ def run_case(ctx, desc):
         ctx.violation("grid-constructor-accepts", f"Grid(...) raised {type(e).__name__}: {e}")
         return
     da = c01.make_da(desc, ds)
+    dt = desc["data"].get("dtype2", "float64")
+    if dt != "float64":
+        da = abs(da.round()).astype(dt) if dt == "uint64" else da.round().astype(dt)
     kw = {k: call[k] for k in ("boundary", "fill_value") if k in call}
     rules = {a: resolve.in_force(a, desc["ctor"], call) for a in bw}
     src = {}
@@ -132,7 +151,7 @@ def run_case(ctx, desc):
     ckey = [
         (rules[a][0], src[a], bw[a][0] > 0, bw[a][1] > 0, max(bw[a]) >= sizes[cm[a][desc["pos"][a]]])
         for a in sorted(bw)
-    ]
+    ] + ([(dt,)] if dt != "float64" else [])
     nontrivial = any(max(w) > 0 for w in bw.values())
     ctx.judged(ckey, nontrivial)
     try:
